@@ -7,7 +7,7 @@ from typing import Any, Dict, List, Optional, Set, Tuple
 from .. import heval, rx, sqlrules, sqltok, termrules as T
 from ..report import AnalysisError, Ctx
 from ..sqlrules import SqlAnalysis, raw_origin
-from ..values import NodeV
+from ..values import NodeV, Sym
 from .common import grammar_module
 
 EXPLANATION = (
@@ -63,28 +63,85 @@ def check_py_val_case(ctx: Ctx, env, rule: str = "R4.consumer-case-insensitive")
                     ctx.check(any(f"|{t}" in k for t in CASE_TRANSFORMS), rule, f"ast.{kind}.py_val",
                               f"{kind}.py_val compares the raw text case-sensitively (`{k}`): {CASE_VARIANT_KINDS[kind]} can be written in either case",
                               pci.module.loc(fn), {"Boolean": "flag eq TRUE", "DateTime": "d eq 2020-01-01t10:00:00z", "Float": "x eq 1E3"}[kind])
-    # (a2) the conversion function applied to the raw text must itself be case-insensitive for this kind
-    INSENSITIVE = {"isoparse", "parse", "float", "int", "UUID", "Decimal"}
-    SENSITIVE = {("DateTime", "fromisoformat"): "datetime.fromisoformat accepts only an upper-case Z (and, before 3.11, only upper-case T)",
-                 ("DateTime", "strptime"): "strptime formats match letters case-sensitively"}
+    # (a2) the conversion the raw text is handed to must itself be case-insensitive for this kind (read off the evaluated term)
+    INSENSITIVE = {"dateutil.parser.isoparse", "dateutil.parser.parse", "dateutil.parser.isoparser.isoparse", "builtins.float", "builtins.int",
+                   "uuid.UUID", "decimal.Decimal"}
+    SENSITIVE = {"datetime.datetime.fromisoformat": "datetime.fromisoformat accepts only an upper-case Z (and, before 3.11, only upper-case T)",
+                 "datetime.datetime.strptime": "strptime formats match letters case-sensitively"}
+    from ..values import RefV, Str
     for kind in kinds:
         ci = env.repo.classes.get("odata_query.ast." + kind)
         r = env.repo.lookup_method(ci.qual, "py_val") if ci else None
         if r is None:
             continue
         pci, fn = r
-        for n in ast.walk(fn):
-            if isinstance(n, ast.Call) and n.args and ast.unparse(n.args[0]) in ("self.val",):
-                callee = n.func.attr if isinstance(n.func, ast.Attribute) else (n.func.id if isinstance(n.func, ast.Name) else "?")
-                n_cons += 1
-                if callee in INSENSITIVE:
-                    ctx.ok(rule, f"ast.{kind}.py_val|{callee}", "case-insensitive conversion (trusted)")
-                elif (kind, callee) in SENSITIVE:
-                    ctx.fail(rule, f"ast.{kind}.py_val|{callee}", f"{kind}.py_val hands the raw text to {callee}(): "
-                             f"{SENSITIVE[(kind, callee)]}, but the lexer also accepts the lower-case spelling", pci.module.loc(n),
-                             "d eq 2020-06-01T00:00:00z")
+        interp = env.interp()
+        seen_calls = set()
+
+        def raw_text(v) -> Optional[bool]:
+            """True: the untransformed text of the literal; False: a case-normalised copy; None: something else"""
+            if isinstance(v, Sym) and v.op == "field" and v.args[1] == "val":
+                return True
+            if isinstance(v, Str) and len(v.parts) == 1 and v.parts[0][0] == "dyn" and isinstance(v.parts[0][1], Sym) and v.parts[0][1].op == "field" \
+                    and v.parts[0][1].args[1] == "val":
+                return not any(t and t[0] in CASE_TRANSFORMS for t in v.parts[0][2])
+            return None
+
+        def walk(v):
+            if isinstance(v, Sym):
+                if v.op == "call" and len(v.args) >= 2 and v.args[1] and raw_text(v.args[1][0]) is True:
+                    yield v
+                for a in v.args:
+                    if isinstance(a, (tuple, list)):
+                        for x in a:
+                            if isinstance(x, (tuple, list)):
+                                for y in x:
+                                    yield from walk(y)
+                            else:
+                                yield from walk(x)
+                    else:
+                        yield from walk(a)
+
+        for p in interp.explore(lambda it, kind=kind, pci=pci, fn=fn: (pci.module, fn, [NodeV("node", {kind})], {}, pci.qual)):
+            if p.outcome != "return":
+                continue
+            for c in walk(p.value):
+                f = c.args[0]
+                why = None
+                if isinstance(f, RefV):
+                    name = f.qual
+                    if name in SENSITIVE:
+                        why = SENSITIVE[name]
+                    elif name not in INSENSITIVE:
+                        raise AnalysisError(f"{kind}.py_val converts the raw text with {name}(), whose case behaviour is unknown to the oracle", pci.module.loc(fn))
+                elif isinstance(f, Sym) and f.op == "attr" and f.args[1] == "isoparse" and isinstance(f.args[0], Sym) and f.args[0].op == "call" \
+                        and isinstance(f.args[0].args[0], RefV) and f.args[0].args[0].qual in ("dateutil.parser.isoparser", "dateutil.parser.isoparser.isoparser"):
+                    name = "isoparser(...).isoparse"
+                    ctor = f.args[0]
+                    sep = None
+                    if ctor.args[1]:
+                        sep = ctor.args[1][0]
+                    for k, v in (ctor.args[2] or ()):
+                        if k == "sep":
+                            sep = v
+                    from ..values import Const as _C
+                    if sep is not None and not (isinstance(sep, _C) and sep.v is None):
+                        if isinstance(sep, _C) and isinstance(sep.v, str) and sep.v.lower() == sep.v.upper():
+                            pass  # a separator without case
+                        else:
+                            why = f"an isoparser built with sep={sep!r} accepts exactly that character between date and time"
                 else:
-                    raise AnalysisError(f"{kind}.py_val converts the raw text with {callee}(), whose case behaviour is unknown to the oracle", pci.module.loc(n))
+                    raise AnalysisError(f"{kind}.py_val converts the raw text with `{f!r:.80}`, whose case behaviour is unknown to the oracle", pci.module.loc(fn))
+                key = f"ast.{kind}.py_val|{name.rsplit('.', 1)[-1]}"
+                if key in seen_calls:
+                    continue
+                seen_calls.add(key)
+                n_cons += 1
+                if why:
+                    ctx.fail(rule, key, f"{kind}.py_val hands the raw text to {name}(): {why}, but the lexer also accepts the lower-case spelling",
+                             pci.module.loc(fn), "d eq 2020-06-01t00:00:00z")
+                else:
+                    ctx.ok(rule, key, "case-insensitive conversion (trusted)")
     return n_cons
 
 
